@@ -131,16 +131,17 @@ func (t *RichText) findContainerSize(cells []vaxis.Cell, ctx vxfw.DrawContext) v
 			}
 			size.Height += 1
 			chars := scanner.Text()
-			var w uint16
+			// Summed in an int: a line can be wider than a uint16 holds
+			var w int
 			for _, char := range chars {
-				w += uint16(char.Width)
+				w += char.Width
 			}
 			// Size is limited to the Max.Width
-			if size.Width < w {
-				size.Width = w
+			if w > int(ctx.Max.Width) {
+				w = int(ctx.Max.Width)
 			}
-			if size.Width > ctx.Max.Width {
-				size.Width = ctx.Max.Width
+			if int(size.Width) < w {
+				size.Width = uint16(w)
 			}
 		}
 		return size
@@ -153,16 +154,17 @@ func (t *RichText) findContainerSize(cells []vaxis.Cell, ctx vxfw.DrawContext) v
 		}
 		size.Height += 1
 		chars := scanner.Line()
-		var w uint16
+		// Summed in an int: a line can be wider than a uint16 holds
+		var w int
 		for _, char := range chars {
-			w += uint16(char.Width)
+			w += char.Width
 		}
 		// Size is limited to the Max.Width
-		if size.Width < w {
-			size.Width = w
+		if w > int(ctx.Max.Width) {
+			w = int(ctx.Max.Width)
 		}
-		if size.Width > ctx.Max.Width {
-			size.Width = ctx.Max.Width
+		if int(size.Width) < w {
+			size.Width = uint16(w)
 		}
 	}
 
